@@ -362,6 +362,29 @@ void vf_run_case(vf::Ctx& ctx, long idx)
     vw::OpCtl ctl;
     try
     {
+        // storage option of the library's wrappers: RowMajor in every other exploration case (chosen from the case number, no random draw)
+        const bool rowmajor = !corpus && ((idx / 2) % 2 == 1);
+        ctx.count(rowmajor ? "wrapper_options/RowMajor" : "wrapper_options/default");
+        if (rowmajor)
+        {
+            using MatR = Eigen::Matrix<T, Eigen::Dynamic, Eigen::Dynamic, Eigen::RowMajor>;
+            using SpR = Eigen::SparseMatrix<T, Eigen::RowMajor>;
+            switch (P.kind)
+            {
+#if C02_GROUP == 0
+                case 0: { MatR Ar = A; vw::Wrap<Spectra::DenseGenMatProd<T, Eigen::RowMajor>> op(&ctl, Ar); Spectra::GenEigsSolver<decltype(op)> es(op, P.nev, P.ncv); run_history(ctx, P, es, ctl); break; }
+                case 1: { SpR S = A.sparseView(); vw::Wrap<Spectra::SparseGenMatProd<T, Eigen::RowMajor>> op(&ctl, S); Spectra::GenEigsSolver<decltype(op)> es(op, P.nev, P.ncv); run_history(ctx, P, es, ctl); break; }
+#elif C02_GROUP == 1
+                case 2: { MatR Ar = A; vw::Wrap<Spectra::DenseGenRealShiftSolve<T, Eigen::RowMajor>> op(&ctl, Ar); Spectra::GenEigsRealShiftSolver<decltype(op)> es(op, P.nev, P.ncv, P.sigmar); run_history(ctx, P, es, ctl); break; }
+                case 3: { SpR S = A.sparseView(); vw::Wrap<Spectra::SparseGenRealShiftSolve<T, Eigen::RowMajor>> op(&ctl, S); Spectra::GenEigsRealShiftSolver<decltype(op)> es(op, P.nev, P.ncv, P.sigmar); run_history(ctx, P, es, ctl); break; }
+#else
+                case 4: { MatR Ar = A; vw::Wrap<Spectra::DenseGenComplexShiftSolve<T, Eigen::RowMajor>> op(&ctl, Ar); Spectra::GenEigsComplexShiftSolver<decltype(op)> es(op, P.nev, P.ncv, P.sigmar, P.sigmai); run_history(ctx, P, es, ctl); break; }
+                case 5: { SpR S = A.sparseView(); vw::Wrap<Spectra::SparseGenComplexShiftSolve<T, Eigen::RowMajor>> op(&ctl, S); Spectra::GenEigsComplexShiftSolver<decltype(op)> es(op, P.nev, P.ncv, P.sigmar, P.sigmai); run_history(ctx, P, es, ctl); break; }
+#endif
+                default: break;
+            }
+        }
+        else
         switch (P.kind)
         {
 #if C02_GROUP == 0
